@@ -191,6 +191,15 @@ def build_driver():
         for f in os.listdir(ML):
             if f.endswith((".ml", ".mli", ".cmi", ".cmx", ".o", ".cmo")):
                 os.remove(os.path.join(ML, f))
+        # Extract.v needs EVERY model file compiled against the current Generated.v (a property's own make only rebuilds the
+        # closure of its Props file, so after a regenerated constant the other .vo files would be inconsistent)
+        targets = sorted(set([v[:-2] + ".vo" for v in coq_files() if "/Model/" in v or v.endswith("Generated.v") or v.endswith("GenTables.v")]
+                             + [v[:-2] + ".vo" for v in dep_closure("theories/Extract.v") if not v.endswith("Extract.v")]))
+        with Lock("coq"):
+            if not os.path.exists(os.path.join(COQ, "Makefile")) or \
+               os.path.getmtime(os.path.join(COQ, "Makefile")) < os.path.getmtime(os.path.join(COQ, "_CoqProject")):
+                sh("coq_makefile -f _CoqProject -o Makefile", cwd=COQ)
+            sh(["timeout", "2400", "make", "-j%d" % NPROC] + targets, cwd=COQ, check=False, timeout=2500)
         sh(["timeout", "900", "coqc", "-Q", os.path.join(COQ, "theories"), "FV", os.path.join(COQ, "theories", "Extract.v")], cwd=ML)
         for f in os.listdir(os.path.join(VERIF, "ocaml")):
             if f.endswith(".ml"):
